@@ -1,5 +1,6 @@
 import SfVerif.Model.Proto
 import SfVerif.Props.C06
+import SfVerif.Lemmas.DocLink7
 /-! C11 — true lengths are always recoverable below, at and above the inline limit. -/
 namespace SfVerif.Props.C11
 open SfVerif SfVerif.Gen
@@ -115,6 +116,71 @@ theorem C11_index_refused_iff (b : Bytes) (f len e i : Nat) (elems : NodeList) (
       · constructor
         · intro hh; exact absurd hh (objGetLoop_not_oob b f len _ _ _)
         · intro hh; exact hh.elim
+
+/-- **the true length through every access path**: in every reachable context over an input that
+    decodes to `d`, for every valid handle (root, nested, reached by name or by index, a key) the
+    length query returns the length of the decoded sub-document — string bytes, array elements,
+    object pairs, of any size — and exactly the indices below that length can be read: an array
+    index / object value index / key index `i` is answered with `IndexOutOfBounds` iff
+    `i ≥` the true length -/
+theorem C11_true_length_every_path (c : Ctx) (hc : CInv c) (d : Doc) (hd : Decodes c.input d)
+    (h : Handle) (m : Node) (hm : c.nodeAt? h = some m) :
+    ∃ dc, d.getPath? h.path = some dc ∧ c.getValLen (.node h) = some (DocSpec.getValLen dc) ∧
+      (∀ xs, dc = .arr xs → ∀ i,
+        ((c.getAtIndex (.node h) i).2 = .err ErrorCode_IndexOutOfBounds ↔ xs.length ≤ i)) ∧
+      (∀ ps, dc = .map ps → ∀ i,
+        ((c.getAtIndex (.node h) i).2 = .err ErrorCode_IndexOutOfBounds ↔ ps.length ≤ i) ∧
+        ((c.getKeyAtIndex (.node h) i).2 = .err ErrorCode_IndexOutOfBounds ↔ ps.length ≤ i)) := by
+  obtain ⟨dc, hdc⟩ := handle_in_doc hc hd hm
+  have box_ne_oob : ∀ (x : Doc) (hh : Handle), x.box hh ≠ .err ErrorCode_IndexOutOfBounds := by
+    intro x hh
+    cases x <;> simp [Doc.box] <;> (split <;> simp)
+  refine ⟨dc, hdc, by rw [(getValLen_node_ok hc hm).1]; exact getValLen_doc hd hdc, ?_, ?_⟩
+  · intro xs hxs i
+    subst hxs
+    rw [(getAtIndex_node_ok hc hm i).1, getAtIndex_doc hd hdc i]
+    simp only [DocSpec.getAtIndex]
+    cases hx : xs[i]? with
+    | none =>
+      have : xs.length ≤ i := by
+        cases hlt : decide (i < xs.length) with
+        | true => have h' : i < xs.length := by simpa using hlt
+                  rw [List.getElem?_eq_getElem h'] at hx; cases hx
+        | false => simpa using hlt
+      simp [this]
+    | some x =>
+      have : i < xs.length := by
+        cases hlt : decide (i < xs.length) with
+        | true => simpa using hlt
+        | false => have h' : xs.length ≤ i := by simpa using hlt
+                   rw [List.getElem?_eq_none h'] at hx; cases hx
+      simp only []
+      constructor
+      · intro hh; exact absurd hh (box_ne_oob _ _)
+      · intro hh; omega
+  · intro ps hps i
+    subst hps
+    rw [(getAtIndex_node_ok hc hm i).1, getAtIndex_doc hd hdc i,
+      (getKeyAtIndex_node_ok hc hm i).1, getKeyAtIndex_doc hd hdc i]
+    simp only [DocSpec.getAtIndex, DocSpec.getKeyAtIndex]
+    cases hx : ps[i]? with
+    | none =>
+      have : ps.length ≤ i := by
+        cases hlt : decide (i < ps.length) with
+        | true => have h' : i < ps.length := by simpa using hlt
+                  rw [List.getElem?_eq_getElem h'] at hx; cases hx
+        | false => simpa using hlt
+      simp [this]
+    | some x =>
+      obtain ⟨kd, vd⟩ := x
+      have : i < ps.length := by
+        cases hlt : decide (i < ps.length) with
+        | true => simpa using hlt
+        | false => have h' : ps.length ≤ i := by simpa using hlt
+                   rw [List.getElem?_eq_none h'] at hx; cases hx
+      simp only []
+      refine ⟨⟨fun hh => absurd hh (box_ne_oob _ _), fun hh => by omega⟩,
+              ⟨fun hh => absurd hh (box_ne_oob _ _), fun hh => by omega⟩⟩
 
 /-- non-vacuity: the saturated field and the fallback on a concrete large array -/
 example : Thread.apiLen 32
